@@ -11,7 +11,7 @@ package parser
 // offset 0 (positions in the tree are byte offsets into the caller's text).
 //@ func New
 //@   modifies nothing
-//@   ensures [C07] [C08] @verbatim: result != nil && fresh(result) && result.Scanner.text == text && result.Scanner.Path == path && result.Scanner.offset == 0 && result.Scanner.currentLen == 0 && result.Callback == nil
+//@   ensures [C07] [C08] @verbatim: result != nil && fresh(result) && result.Scanner.text == text && result.Scanner.Path == path && result.Scanner.offset == 0 && result.Scanner.currentLen == 0 && result.Scanner.current == 0 && result.Callback == nil
 //
 //@ def node(r directives.Range, p *Parser, start int) bool := rangeIn(r, p.Scanner) && r.Start == start && r.End == p.offset
 //@ def within(c directives.Range, r directives.Range) bool := r.Start <= c.Start && c.End <= r.End && c.Start <= c.End && c.Text == r.Text && c.Path == r.Path
